@@ -4,8 +4,8 @@ C04 — property theorems, part 5: COMMENTS.  `strip_comments` (model `stripComm
 `SC x y` = "the text `x` strips to `y` and ends outside a literal and outside a comment" is closed under concatenation
 (`SC.append`); code without quote / slash, string literals, block comments and line comments are `SC` (`SC.code`, `SC.lit`,
 `SC.block`, `SC.line`).  `parseRules_render_comments`: a file whose gaps contain comments with ARBITRARY text parses to exactly
-the rules written.  Comments INSIDE a rule (in its white-space slots) strip the same way by `SC.append`, but leave line breaks
-inside the rule: that case needs `cleanText_layout_full` (Theorems3) and stays open.
+the rules written.  Comments INSIDE a rule (in its white-space slots) strip the same way by `SC.append` and leave line breaks
+inside the rule: `parseRules_render_layout_comments` (Theorems6).
 -/
 namespace C04
 
